@@ -99,6 +99,10 @@ Print Assumptions C08_depth_sound.
     sent are exactly those reached from the want along parent paths that avoid the acknowledged
     commons, the tables selected are exactly those of such commits reached at depth < depth
     (all when depth = 0), and the list is parent-first. *)
+(** NOTE: [t] ranges over TABLE sums ([c_table cm]), not over commits: TablesToSend is a set of
+    table sums, and a table is selected iff SOME visited commit within depth carries it - also when
+    another commit carrying the same table (a revert, identical data on two branches, the same
+    commit reached again by a longer path) lies beyond the depth.  See [C08_revert_tables]. *)
 Theorem C08_depth_one_want : forall qsort ord g refs depth w haves done acks f L,
   sort_fun qsort -> order_fun ord -> acyclic g ->
   session qsort ord g refs depth [mkRound [w] haves done] = ([ROk acks], Some (Ok (f, L))) ->
@@ -191,3 +195,34 @@ Proof. vm_compute. reflexivity. Qed.
 
 Example C08_diamond_4 : option_map (@length _) (diamond_send 4) = Some 61.
 Proof. vm_compute. reflexivity. Qed.
+
+(** non-vacuity for shared table sums: the revert history c1(T1) <- c2(T2) <- c3(T3) <- c4(T1),
+    want c4, depth 2.  T1 is selected (c4 carries it at depth 0) although c1, at depth 3, carries it
+    too and is beyond the depth; T3 is selected (depth 1); T2 (depth 2) is not. *)
+Definition rev_store : store :=
+  mkStore [(4%N, mkCommit [3%N] 14 1); (3%N, mkCommit [2%N] 13 3);
+           (2%N, mkCommit [1%N] 12 2); (1%N, mkCommit [] 11 1)] [1%N; 2%N; 3%N].
+
+Example C08_revert_tables :
+  match session isort_time (ord_of 0) rev_store [4%N] 2 [mkRound [4%N] [] true] with
+  | (os, Some (Ok (f, L))) =>
+      os = [ROk []] /\ L = [1%N; 2%N; 3%N; 4%N] /\ concat (f_tlists f) = [3%N; 1%N]
+  | _ => False
+  end.
+Proof. vm_compute. repeat split; reflexivity. Qed.
+
+Example C08_revert_beyond_depth :
+  vis rev_store (stopb [] []) 4%N 3 1%N /\ depth_ok 2 3 = false /\
+  vis rev_store (stopb [] []) 4%N 0 4%N /\ depth_ok 2 0 = true /\
+  get_commit rev_store 1%N = Some (mkCommit [] 11 1) /\
+  get_commit rev_store 4%N = Some (mkCommit [3%N] 14 1).
+Proof.
+  assert (V0 : vis rev_store (stopb [] []) 4%N 0 4%N) by (apply visf_0; [reflexivity|discriminate]).
+  assert (V1 : vis rev_store (stopb [] []) 4%N 1 3%N).
+  { eapply visf_S; [exact V0|vm_compute; auto|reflexivity|discriminate]. }
+  assert (V2 : vis rev_store (stopb [] []) 4%N 2 2%N).
+  { eapply visf_S; [exact V1|vm_compute; auto|reflexivity|discriminate]. }
+  assert (V3 : vis rev_store (stopb [] []) 4%N 3 1%N).
+  { eapply visf_S; [exact V2|vm_compute; auto|reflexivity|discriminate]. }
+  repeat split; auto.
+Qed.
